@@ -11,6 +11,7 @@
 //	T3 go f(x) -> simrt.Go(func(){ f(x) })                              (concurrent packages)
 //	T4 simrt.Step() at function entries and loop heads                  (VM + interpreter packages)
 //	T5 simrt.Woke() after sleeps / channel operations, Sleeping before  (concurrent packages)
+//	T8 simrt.AtomicPoint() before every statement that calls into sync/atomic (a preemption point)
 //	T7 context.AfterFunc / time.AfterFunc -> simrt.AfterFunc / simrt.TimeAfterFunc (f runs as a task)
 //	T6 a select with >= 2 channel cases first tries them one at a time in an order chosen by
 //	   simrt.SelectFirst (Go's random pick among ready cases becomes a simulator choice)
@@ -60,6 +61,7 @@ type report struct {
 	WakeSites  int            `json:"wake_sites"`
 	SelectSites int           `json:"select_sites"`
 	AfterFuncSites int        `json:"afterfunc_sites"`
+	AtomicSites int           `json:"atomic_sites"`
 	StepSites  int            `json:"step_sites"`
 	SyncFiles  []string       `json:"sync_files"`
 	Warnings   []string       `json:"warnings"`
@@ -134,8 +136,8 @@ func main() {
 		b, _ := json.MarshalIndent(rep, "", " ")
 		os.WriteFile(*reportPath, b, 0o644)
 	}
-	fmt.Printf("simbuild: %d map-range sites, %d go statements, %d wake points, %d step points, %d sync imports, %d multi-case selects, %d warnings\n",
-		len(rep.MapSites), len(rep.GoSites), rep.WakeSites, rep.StepSites, len(rep.SyncFiles), rep.SelectSites, len(rep.Warnings))
+	fmt.Printf("simbuild: %d map-range sites, %d go statements, %d wake points, %d step points, %d sync imports, %d multi-case selects, %d atomic points, %d warnings\n",
+		len(rep.MapSites), len(rep.GoSites), rep.WakeSites, rep.StepSites, len(rep.SyncFiles), rep.SelectSites, rep.AtomicSites, len(rep.Warnings))
 	for _, w := range rep.Warnings {
 		fmt.Println("simbuild: warning:", w)
 	}
@@ -383,6 +385,12 @@ func (fi *funcInstr) stmts(list []ast.Stmt) []ast.Stmt {
 		wake := true
 		labeled := fi.labeledNext
 		fi.labeledNext = false
+		if fi.usesAtomic(s) && !labeled {
+			out = append(out, callStmt("AtomicPoint"))
+			in.rep.AtomicSites++
+			in.needSim = true
+			in.count++
+		}
 		switch t := s.(type) {
 		case *ast.BlockStmt:
 			fi.block(t)
@@ -394,6 +402,13 @@ func (fi *funcInstr) stmts(list []ast.Stmt) []ast.Stmt {
 			fi.exprs(t.Post)
 			fi.block(t.Body)
 			fi.loopHead(t.Body)
+			if t.Cond != nil && fi.usesAtomic(&ast.ExprStmt{X: t.Cond}) || t.Post != nil && fi.usesAtomic(t.Post) {
+				// a loop that spins on an atomic value: every iteration is a preemption point
+				t.Body.List = append([]ast.Stmt{callStmt("AtomicPoint")}, t.Body.List...)
+				in.rep.AtomicSites++
+				in.needSim = true
+				in.count++
+			}
 		case *ast.RangeStmt:
 			fi.exprs(t.X)
 			fi.block(t.Body)
@@ -515,6 +530,49 @@ func (fi *funcInstr) stmts(list []ast.Stmt) []ast.Stmt {
 		out = append(out, s)
 	}
 	return out
+}
+
+// usesAtomic: does the statement itself (its expressions and headers, not nested blocks or function
+// literals) call a function or method of sync/atomic?
+func (fi *funcInstr) usesAtomic(s ast.Stmt) bool {
+	var roots []ast.Node
+	switch t := s.(type) {
+	case *ast.ExprStmt, *ast.AssignStmt, *ast.IncDecStmt, *ast.ReturnStmt, *ast.SendStmt, *ast.DeclStmt, *ast.DeferStmt, *ast.GoStmt:
+		roots = []ast.Node{s}
+	case *ast.IfStmt:
+		roots = []ast.Node{t.Init, t.Cond}
+	case *ast.SwitchStmt:
+		roots = []ast.Node{t.Init, t.Tag}
+	case *ast.ForStmt:
+		roots = []ast.Node{t.Init}
+	default:
+		return false
+	}
+	found := false
+	for _, r := range roots {
+		if r == nil || reflect.ValueOf(r).IsNil() {
+			continue
+		}
+		ast.Inspect(r, func(n ast.Node) bool {
+			if found {
+				return false
+			}
+			switch x := n.(type) {
+			case *ast.FuncLit:
+				return false
+			case *ast.CallExpr:
+				se, ok := x.Fun.(*ast.SelectorExpr)
+				if !ok {
+					return true
+				}
+				if obj := fi.in.pkg.TypesInfo.Uses[se.Sel]; obj != nil && obj.Pkg() != nil && obj.Pkg().Path() == "sync/atomic" {
+					found = true
+				}
+			}
+			return true
+		})
+	}
+	return found
 }
 
 // selectTries implements T6. It returns nil when the statement has fewer than two channel cases or
